@@ -249,7 +249,7 @@ fn harnesses(tier: Tier) -> Vec<Harness> {
         }
     }
     // three callers, same key
-    let three: Vec<(Kind, u8)> = if tier == Tier::Thorough { vec![(Kind::Ok, 0), (Kind::Ok, 1), (Kind::Err, 1), (Kind::Panic, 0), (Kind::Panic, 1)] } else { vec![(Kind::Ok, 1), (Kind::Panic, 0)] };
+    let three: Vec<(Kind, u8)> = if tier == Tier::Thorough { vec![(Kind::Ok, 0), (Kind::Ok, 1), (Kind::Err, 1), (Kind::Panic, 0), (Kind::Panic, 1)] } else { vec![(Kind::Ok, 0), (Kind::Panic, 0)] };
     for (k, y) in &three {
         v.push(Harness {
             name: format!("3same-{k:?}{y}"),
@@ -258,9 +258,10 @@ fn harnesses(tier: Tier) -> Vec<Harness> {
     }
     // two keys
     for k in kinds {
+        let y = tier.pick(0, 1);
         v.push(Harness {
             name: format!("2keys-{k:?}"),
-            callers: vec![c(0, k, 1), c(0, Kind::Ok, 0), c(1, Kind::Ok, 1)],
+            callers: vec![c(0, k, y), c(0, Kind::Ok, 0), c(1, Kind::Ok, y)],
         });
     }
     // late caller released after caller 0 returned
@@ -275,10 +276,12 @@ fn harnesses(tier: Tier) -> Vec<Harness> {
     v
 }
 
-fn explore_one(h: &Harness, bound: usize, deadline: Instant, out: &mut Partial, run: &mut Vec<String>) -> (usize, usize, std::collections::BTreeSet<String>) {
+fn explore_one(h: &Harness, bound: usize, delay_bounded: bool, deadline: Instant, max_exec: usize, out: &mut Partial, run: &mut Vec<String>) -> (usize, usize, std::collections::BTreeSet<String>) {
     let cfg = ExploreCfg {
         bound,
         deadline: Some(deadline),
+        max_exec,
+        delay_bounded,
         ..Default::default()
     };
     let hist_slot: Arc<Mutex<Option<Hist>>> = Arc::new(Mutex::new(None));
@@ -437,15 +440,14 @@ fn main() {
         hs.retain(|h| h.name.contains(&f));
     }
     let bound_override: Option<usize> = std::env::var("LAB_SF_BOUND").ok().and_then(|x| x.parse().ok());
-    let bound = tier.pick(2, 3);
-    let budget = Duration::from_secs(std::env::var("LAB_SF_BUDGET").ok().and_then(|x| x.parse().ok()).unwrap_or(tier.pick(40, 420)));
+    let budget = Duration::from_secs(std::env::var("LAB_SF_BUDGET").ok().and_then(|x| x.parse().ok()).unwrap_or(tier.pick(240, 1800)));
     let t0 = Instant::now();
     let per = budget / (hs.len() as u32);
     // harnesses are independent: explore them on parallel OS threads (each exploration owns its own scheduler)
     let results: Mutex<Vec<(usize, Partial, Vec<String>, usize, usize, std::collections::BTreeSet<String>)>> = Mutex::new(vec![]);
     let next = AtomicUsize::new(0);
     std::thread::scope(|s| {
-        for _ in 0..12 {
+        for _ in 0..14 {
             s.spawn(|| loop {
                 let i = next.fetch_add(1, Ordering::SeqCst);
                 if i >= hs.len() {
@@ -454,10 +456,25 @@ fn main() {
                 let mut p = Partial::default();
                 let mut m = vec![];
                 // unbounded for the two-caller harnesses in thorough, else the tier's bound
-                let b = bound_override.unwrap_or(if tier == Tier::Thorough && hs[i].callers.len() == 2 { 64 } else { bound });
-                let deadline = Instant::now() + per * 12;
-                let (ex, dec, outs) = explore_one(&hs[i], b, deadline, &mut p, &mut m);
+                // bound per harness shape (measured: a 2-caller harness has ~300-470 schedules at bound 2 and
+                // ~6.5 k at bound 3; the 3-thread ones ~14-21 k at bound 1-2): chosen so that every
+                // harness *completes* its bound; the execution cap and the deadline are safety nets only
+                let three = hs[i].callers.len() >= 3;
+                // two-caller harnesses: preemption bound 2 (quick) / 3 (thorough), completed.
+                // three-thread harnesses (3 callers, 2 keys, late caller): preemption bounding explodes with the
+                // number of blocking events (free choices at every join/pending/exit), so they are explored
+                // delay-bounded: every departure from the default scheduler costs 1; bound 2 (quick) / 3 (thorough).
+                let b = bound_override.unwrap_or(match (tier, three) {
+                    (Tier::Quick, false) => 2,
+                    (Tier::Quick, true) => 2,
+                    (Tier::Thorough, false) => 3,
+                    (Tier::Thorough, true) => 3,
+                });
+                let _ = per;
+                let deadline = t0 + budget;
+                let (ex, dec, outs) = explore_one(&hs[i], b, three, deadline, tier.pick(80_000, 1_500_000), &mut p, &mut m);
                 p.sample(json!({"harness": hs[i].to_json(), "bound": b, "schedules": ex, "distinct_outcomes": outs.len()}));
+                p.max(&format!("max:bound[{}]", if three { "3-thread" } else { "2-caller" }), b as u64);
                 results.lock().unwrap().push((i, p, m, ex, dec, outs));
             });
         }
@@ -493,7 +510,9 @@ fn main() {
     run.set("states", json!(decisions.max(1)));
     run.set("transitions", json!(out.get("steps").max(1)));
     run.set("traces_validated_against_impl", json!(schedules));
-    run.set("preemption_bound_completed", json!(if capped == 0 { bound } else { bound - 1 }));
+    run.set("preemption_bound_two_caller_harnesses", json!(tier.pick(2, 3)));
+    run.set("delay_bound_three_thread_harnesses", json!(tier.pick(2, 3)));
+    run.set("harnesses_that_hit_a_cap", json!(capped));
     run.set("harnesses", json!(per_h));
     run.set("wall_budget_s", json!(budget.as_secs()));
     run.assume("sequential consistency at switch-point granularity: switch points are the hooked lock acquisitions of singleflight (map lock, result read/write lock), pending polls, task yields, spawn/join/exit");
@@ -503,7 +522,7 @@ fn main() {
     run.all = out;
     run.finish(
         schedules as u64,
-        "every schedule with at most the tier's number of preemptions (unbounded for two-caller harnesses in thorough) of each harness (2-3 callers x task kinds ok/err/panic x 0/1 task yields, two keys, late caller); distinct = distinct (harness, per-caller outcome vector); states = scheduling decisions taken, transitions = scheduler steps",
+        "every schedule with at most 2 (quick) / 3 (thorough) preemptions of each two-caller harness, and every schedule with at most 2 / 3 departures from the default scheduler (delay bounding) of each three-thread harness (three callers, two keys, late caller) (2-3 callers x task kinds ok/err/panic x 0/1 task yields, two keys, late caller); distinct = distinct (harness, per-caller outcome vector); states = scheduling decisions taken, transitions = scheduler steps",
         capped == 0,
     );
 }
